@@ -397,6 +397,78 @@ func c19ConnectionFaults(c *Ctx, done chan<- struct{}) {
 	}
 	keptExpect, keptPlain := openKept(70001), openKept(70002)
 
+	// 5. first requests that arrive slowly but inside every read deadline: nothing for 2.6 s after the connection is
+	// accepted, then the first part, 3 s later the rest - complete more than 5 s (the read timeout) after accept. A
+	// plain request, one with "Expect: 100-continue", and one the server's own parser refuses: each must get its answer.
+	type slowReq struct {
+		note, part1, part2 string
+		body               []byte // sent after "100 Continue" (expect) or with part2
+		expect, wellFormed bool
+	}
+	sk, _ := rawProbe(key, sec, 70020)
+	sb := jsonBody(sk.F)
+	slowHead := fmt.Sprintf("POST /hotp/generate HTTP/1.1\r\nHost: x\r\nContent-Type: application/json\r\nContent-Length: %d\r\n", len(sb))
+	slows := []slowReq{
+		{"a well-formed request", slowHead[:30], slowHead[30:] + "\r\n", sb, false, true},
+		{"a well-formed request with Expect: 100-continue", slowHead[:30], slowHead[30:] + "Expect: 100-continue\r\n\r\n", sb, true, true},
+		{"a request with an unparsable Content-Length", "POST /hotp/generate HTTP/1.1\r\nHo", "st: x\r\nContent-Length: abc\r\n\r\n", nil, false, false},
+		{"a request for an unknown path", "GET /no/su", "ch/path HTTP/1.1\r\nHost: x\r\n\r\n", nil, false, false},
+	}
+	slowDone := make(chan struct{})
+	go func() {
+		defer close(slowDone)
+		monParallel(len(slows), len(slows), func(i int) {
+			q := slows[i]
+			conn, err := net.DialTimeout("tcp", srv.addr, 5*time.Second)
+			if err != nil {
+				return
+			}
+			defer conn.Close()
+			conn.SetDeadline(time.Now().Add(40 * time.Second))
+			time.Sleep(2600 * time.Millisecond) // the client's pace is the input
+			conn.Write([]byte(q.part1))
+			time.Sleep(3 * time.Second)
+			conn.Write([]byte(q.part2))
+			if !q.expect && q.body != nil {
+				conn.Write(q.body)
+			}
+			br := bufio.NewReader(conn)
+			read := func() (*httpResult, error) {
+				resp, err := http.ReadResponse(br, &http.Request{Method: "POST"})
+				if err != nil {
+					return nil, err
+				}
+				b, rerr := io.ReadAll(resp.Body)
+				resp.Body.Close()
+				if rerr != nil {
+					return nil, rerr
+				}
+				return &httpResult{Status: resp.StatusCode, Header: resp.Header, Body: b}, nil
+			}
+			a, rerr := read()
+			if rerr == nil && a.Status == 100 {
+				conn.Write(q.body)
+				a, rerr = read()
+			}
+			r.Eval(1)
+			r.Count("slow_first_requests", 1)
+			r.Nontrivial("slow-first|" + q.note)
+			if rerr != nil {
+				r.Violate("C19|connection|no-response|slow-first-request", "a first request that arrives slowly but inside the server's read deadlines (first bytes 2.6 s after the connection was accepted, the rest 3 s later) receives no response", "none",
+					map[string]any{"request": q.note, "first_part": q.part1, "second_part": q.part2}, "a complete response", rerr.Error())
+				return
+			}
+			if q.wellFormed {
+				k := sk
+				k.Note = "first request of a connection, sent slowly: " + q.note
+				judgeRESTWith(c, srv, k, a, 0, 0)
+			} else if a.Status >= 200 && a.Status < 300 {
+				r.Violate("C19|connection|status-does-not-distinguish|slow-first-request", "a refused request is answered with a success status when it arrives slowly", "none", map[string]any{"request": q.note}, "a failure status", fmt.Sprint(a.Status))
+			}
+		})
+	}()
+	defer func() { <-slowDone }()
+
 	var conns []net.Conn
 	for rep := 0; rep < 3; rep++ {
 		for _, s := range stalls {
@@ -544,6 +616,16 @@ func c19UnparsableTargets(c *Ctx, srv *server, key []byte, sec string) {
 				note string
 			}{t2, "x", "target with " + fmt.Sprintf("%q", m)})
 		}
+		// a valid absolute form: the authority of the target counts then, whatever the Host header says
+		for _, h := range hosts {
+			t2 := t
+			t2.target = "http://" + srv.addr + t.target
+			cases = append(cases, struct {
+				t    tgt
+				host string
+				note string
+			}{t2, h, "valid absolute-form target, Host: " + fmt.Sprintf("%q", h)})
+		}
 		for _, a := range []string{"http://[::1", "http://a b", "http://x:y", "//x", "http:/x", "HTTP://X"} {
 			t2 := t
 			t2.target = a + t.target
@@ -554,6 +636,18 @@ func c19UnparsableTargets(c *Ctx, srv *server, key []byte, sec string) {
 			}{t2, "x", "absolute-form target with authority " + fmt.Sprintf("%q", a)})
 		}
 	}
+	// twice, in two seeded orders: what the service remembers of one request (a Host value it has "checked", a path it
+	// has resolved) must not decide the answer to a later one
+	rng := c.RNG.Fork(1966)
+	once := append(cases[:0:0], cases...)
+	for rep := 0; rep < 2; rep++ {
+		for i := len(once) - 1; i > 0; i-- {
+			j := rng.Intn(i + 1)
+			once[i], once[j] = once[j], once[i]
+		}
+		cases = append(cases, once...)
+	}
+	cases = cases[len(once):]
 	for _, k := range cases {
 		conn, err := net.DialTimeout("tcp", srv.addr, 5*time.Second)
 		if err != nil {
